@@ -40,6 +40,9 @@ fn main() {
         match prop.as_str() {
             "C01" => checks::c01::replay(&ctx, body),
             "C11" => checks::c11::replay(&ctx, body),
+            "C05" => checks::c05::replay(&ctx, body),
+            "C10" => checks::c10::replay(&ctx, body),
+            "C09" => checks::c09::replay(&ctx, body),
             "C08" => checks::c08::replay(&ctx, body),
             "C14" => checks::c14::replay(&ctx, body),
             "C13" => checks::c13::replay(&ctx, body),
@@ -54,6 +57,9 @@ fn main() {
         match prop.as_str() {
             "C01" => checks::c01::run(&ctx),
             "C11" => checks::c11::run(&ctx),
+            "C05" => checks::c05::run(&ctx),
+            "C10" => checks::c10::run(&ctx),
+            "C09" => checks::c09::run(&ctx),
             "C08" => checks::c08::run(&ctx),
             "C14" => checks::c14::run(&ctx),
             "C13" => checks::c13::run(&ctx),
